@@ -90,6 +90,10 @@ class If(Expr):
         if self.elseBranch is None:
             # if there is only a thenBranch, it must evaluate to TealType.none
             require_type(self.thenBranch, TealType.none)
+        else:
+            # both branches must agree; an ElseIf chain is built incrementally, so this is the
+            # first point at which the rest of the chain is known
+            require_type(self.elseBranch, self.thenBranch.type_of())
 
         return self.thenBranch.type_of()
 
